@@ -561,6 +561,7 @@ class Gen:
         self.k = 0
         self.runnable = runnable  # programs for the exec stream: importable modules, calls of the functions defined, few raise / assert
         self.pending = []
+        self.after_top = []
         self.budget = 0
 
     def sid(self):
@@ -855,6 +856,7 @@ class Gen:
             while e is not None:
                 e["bound"] |= set(xs)
                 e = e.get("parent")
+            self.after_top += xs  # … and the module level reads them right after the statement that contains the declaration
             return ("global", sid, xs)
         if k < 0.72:
             kind = r.choice(["return", "raise", "assert"]) if env["kind"] == "function" else r.choice(["raise", "assert"])
@@ -958,11 +960,14 @@ class Gen:
         self.budget = self.r.randint(2, nmax)
         env = {"bound": set(sess), "frame": set(), "kind": "module", "walrus": set(), "sess": set(sess)}
         out = []
+        self.after_top = []
         while self.budget > 0:
             out.append(self.stmt(env, 0))
             while self.pending:
                 self.budget -= 1
                 out.append(("expr", self.sid(), self.pending.pop(), False))
+            while self.after_top:
+                out.append(("expr", self.sid(), self.read_of(env, self.after_top.pop()), True))
         return out
 
 
